@@ -741,7 +741,7 @@ impl World for TemplateExport {
                 }
             }
             let n = match case.term {
-                Term::Iterations(n) | Term::Evaluations(n) => n as f64,
+                Term::Iterations(n) | Term::Evaluations(n) | Term::Either { iters: n, .. } => n as f64,
             };
             if !nums.contains(&n) {
                 return Some(Violation::new(format!("template-export-misses-parameter template={tname} parameter=termination"), format!("{tname}: the termination bound {n} does not occur in the serialised configuration")));
